@@ -28,7 +28,7 @@ theorem ceil_div_signed_i8_correct (a b : Int) (ha : IntTy.i8.InRange a) (hb : I
   c06_finish
 
 theorem ceil_div_signed_i8_zero (a : Int) : ceil_div_signed_i8 a 0 = .ok none := by
-  gen_unfold_ceil_div_signed; c06_norm; rfl
+  gen_unfold_ceil_div_signed; c06_zero
 
 theorem ceil_div_signed_i16_correct (a b : Int) (ha : IntTy.i16.InRange a) (hb : IntTy.i16.InRange b) (hnz : b ≠ 0)
     (hrep : ∀ q, IsCeilDiv a b q → IntTy.i16.InRange q) :
@@ -49,7 +49,7 @@ theorem ceil_div_signed_i16_correct (a b : Int) (ha : IntTy.i16.InRange a) (hb :
   c06_finish
 
 theorem ceil_div_signed_i16_zero (a : Int) : ceil_div_signed_i16 a 0 = .ok none := by
-  gen_unfold_ceil_div_signed; c06_norm; rfl
+  gen_unfold_ceil_div_signed; c06_zero
 
 /-- outside the guard (the ceiling 128 is not an `int8_t`) the narrow instantiation wraps instead of overflowing -/
 example : ceil_div_signed_i8 (-128) (-1) = .ok (some (-128)) := by rfl
